@@ -1,7 +1,10 @@
 #!/usr/bin/env python3
 """Systematic sensitivity measurement: syntactic mutants of the anchored library files against our quick checks.
 
-usage: mutate.py [--workers N] [--files f1,f2,...] [--out results.jsonl] [--limit N]
+usage: mutate.py [--workers N] [--files f1,f2,...] [--out results.jsonl] [--limit N] [--redo earlier-results.jsonl]
+
+--redo runs only the mutants that an earlier results file lists as survived or inconclusive (after the checks
+were strengthened), writing to --out.
 
 For every mutation site that tools/gomut finds in the files the properties are anchored in (quality-letter twins
 of generated aligner files are skipped), in a private scratch worktree of /repo:
@@ -26,12 +29,13 @@ def sh(cmd, cwd, env=None, timeout=600):
 
 def main():
     a = sys.argv[1:]
-    workers, files, out, limit = 12, None, os.path.join(BASE, "results.jsonl"), None
+    workers, files, out, limit, redo = 12, None, os.path.join(BASE, "results.jsonl"), None, None
     while a:
         if a[0] == "--workers": workers = int(a[1]); a = a[2:]
         elif a[0] == "--files": files = a[1].split(","); a = a[2:]
         elif a[0] == "--out": out = a[1]; a = a[2:]
         elif a[0] == "--limit": limit = int(a[1]); a = a[2:]
+        elif a[0] == "--redo": redo = a[1]; a = a[2:]
         else: a = a[1:]
     props = collections.OrderedDict()
     for l in open(os.path.join(VERIF, "properties.jsonl")):
@@ -53,6 +57,13 @@ def main():
                 if s["func"].startswith(("draw", "pointer")):
                     continue  # the aligners' debugging table printers (dead unless a debug constant is set)
                 tasks.append((f, ids, s))
+    if redo:
+        last = {}
+        for l in open(redo):
+            try:
+                r = json.loads(l); last[(r["file"], r["id"])] = r["outcome"]
+            except Exception: pass
+        tasks = [t for t in tasks if last.get((t[0], t[2]["id"])) in ("survived", "inconclusive")]
     if limit:
         step = max(1, len(tasks) // limit)
         tasks = tasks[::step][:limit]
